@@ -255,7 +255,8 @@ type worker struct {
 	timeout time.Duration
 	cur     atomic.Value // id of the case being evaluated
 
-	state        any // the global state every case starts from
+	state        any             // the global state every case starts from
+	slow         map[string]bool // fn \x00 pos \x00 token: combinations not evaluated any more
 	lastTimedOut bool
 	retrying     bool
 }
@@ -273,15 +274,32 @@ func (w *worker) emit(id, obs string) {
 // quadratic jq code on the 1 MiB string would otherwise cost one timeout per combination.
 func (w *worker) runGroup(cs []wcase) {
 	expr := callExpr(cs[0].name, cs[0].arity)
-	slow := map[string]int{}
-	key := func(i int, t string) string { return strconv.Itoa(i) + "\x00" + t }
+	fnKey := cs[0].name + "/" + strconv.Itoa(cs[0].arity)
+	seen, timed := map[string]int{}, map[string]int{}
+	key := func(i int, t string) string { return fnKey + "\x00" + strconv.Itoa(i) + "\x00" + t }
+	note := func(c wcase, timedOut bool) {
+		for i, t := range c.toks {
+			k := key(i, t)
+			seen[k]++
+			if timedOut {
+				timed[k]++
+				// the value is taken for the cause when it timed out slowLimit times and is either
+				// large / composite or times out in at least a quarter of the cases it occurs in
+				if timed[k] >= slowLimit && (heavyTok(t) || timed[k]*4 >= seen[k]) && !w.slow[k] {
+					w.slow[k] = true
+					fmt.Fprintf(w.out, "#slow\t%s\t%d\t%s\n", fnKey, i, t)
+					w.out.Flush()
+				}
+			}
+		}
+	}
 	rest := cs
 	for len(rest) > 0 {
 		keep := rest[:0:0]
 		for _, c := range rest {
 			skip := false
 			for i, t := range c.toks {
-				if slow[key(i, t)] >= slowLimit {
+				if w.slow[key(i, t)] {
 					skip = true
 				}
 			}
@@ -296,18 +314,22 @@ func (w *worker) runGroup(cs []wcase) {
 			break
 		}
 		n := w.runFrom(expr, rest, 0)
+		last := n - 1
 		if w.lastTimedOut && n >= 1 {
 			w.retrying = true
-			w.runFrom(expr, rest[n-1:n], 0)
+			w.runFrom(expr, rest[last:n], 0)
 			w.retrying = false
-			if w.lastTimedOut {
-				for i, t := range rest[n-1].toks {
-					slow[key(i, t)]++
-				}
-			}
+		}
+		for i := 0; i < n; i++ {
+			note(rest[i], i == last && w.lastTimedOut)
 		}
 		rest = rest[n:]
 	}
+}
+
+func heavyTok(t string) bool {
+	return strings.HasPrefix(t, "O(") || strings.HasPrefix(t, "A(") || strings.HasPrefix(t, "S:") ||
+		strings.HasPrefix(t, "dv:") || strings.HasPrefix(t, "bin:")
 }
 
 const slowLimit = 4
@@ -351,7 +373,7 @@ func (w *worker) runFrom(expr string, cs []wcase, from int) (next int) {
 	}
 	timeout := w.timeout
 	if w.retrying {
-		timeout *= 3
+		timeout *= 2
 	}
 	w.wd.arm(cancel, timeout)
 	for idx < len(cs) {
@@ -425,7 +447,7 @@ func workerMain(inPath, outPath string, timeout time.Duration, memLimit uint64) 
 	if err != nil {
 		panic(err)
 	}
-	w := &worker{ev: newEvaluator(), out: bufio.NewWriter(of), timeout: timeout}
+	w := &worker{ev: newEvaluator(), out: bufio.NewWriter(of), timeout: timeout, slow: map[string]bool{}}
 	w.pool = buildPool(w.ev)
 	st := w.ev.evalValues(nil, initStateExpr)
 	if len(st) != 1 {
@@ -447,6 +469,10 @@ func workerMain(inPath, outPath string, timeout time.Duration, memLimit uint64) 
 	sc.Buffer(make([]byte, 1<<20), 1<<26)
 	for sc.Scan() {
 		ps := strings.Split(sc.Text(), "\t")
+		if len(ps) == 4 && ps[0] == "#slow" {
+			w.slow[ps[1]+"\x00"+ps[2]+"\x00"+ps[3]] = true
+			continue
+		}
 		if len(ps) < 5 {
 			continue
 		}
